@@ -67,6 +67,7 @@ static void state_check(StateSnap *s)
 
 int mon_state_violation(char *what, size_t n)
 {
+	if (!g_state_viol[0] && g_net_violation[0]) snprintf(g_state_viol, sizeof(g_state_viol), "field=send_overrun %s", g_net_violation);
 	if (!g_state_viol[0]) return 0;
 	snprintf(what, n, "%s", g_state_viol);
 	return 1;
@@ -331,6 +332,18 @@ void leak_deep_collect(const Plan *p)
 		if (sm2_do_ecdh(&eph[0], &eph[1].public_key, &sh) == 1) {
 			sm2_z256_point_to_bytes(&sh, xy);
 			leak_add_secret("ecdhe_shared_secret", xy, 32);
+		}
+	}
+	/* application plaintext the library decrypted (or could decrypt: it was written by the peer's application) */
+	for (int d = 0; d < 2; d++) {
+		Endpoint *snd = &g_ep[d == DIR_C2S ? 0 : 1];
+		int step = snd->nrecmap > 24 ? snd->nrecmap / 24 : 1;
+		for (int k = 0; k < snd->nrecmap; k += step) {
+			uint8_t pl[48];
+			size_t n = snd->recmap[k].len >= 48 ? 48 : snd->recmap[k].len;
+			if (n < 16) continue;
+			payload_fill(d, snd->recmap[k].start, pl, n);
+			leak_add_secret("decrypted_plaintext", pl, n);
 		}
 	}
 	/* application plaintext an endpoint received */
